@@ -26,7 +26,7 @@ from .. import tlc
 MICRO = 1_000_000          # micro-units of the larger die side
 MARGIN = 100               # a disc "fits" when it leaves at least 1e-4 of the die side (quantifier, strict side)
 # scale of one micro-unit: die side 1.0 (the tool's default die), 1e6 as YAML integers, 1e5, 333333.3, 1e3, 1e9
-EMBS = {"unit": Emb("unit", F(1, MICRO)), "int": EMBEDDINGS["int"], "dec": EMBEDDINGS["dec"],
+EMBS = {"unit": Emb("unit", F(1, MICRO)), "ten": Emb("ten", F(10, MICRO)), "int": EMBEDDINGS["int"], "dec": EMBEDDINGS["dec"],
         "third": EMBEDDINGS["third"], "tiny": EMBEDDINGS["tiny"], "big": EMBEDDINGS["big"]}
 EMB_ORDER = ["unit", "int", "dec", "third", "tiny", "big"]
 WEIGHTS = [1, 1, 2, 0.5, 2.5, 1 / 3, 10]
@@ -46,6 +46,8 @@ def case_from_tlc(net: dict, emb: str, seed: int) -> dict | None:
                 return None
         if kind == "soft":
             mods.append({"kind": "soft", "area": area * k * k})
+        elif not rects:                       # template 4: a fixed terminal (a pin: no area, no rectangle, only a centre)
+            mods.append({"kind": "fixed", "terminal": 1, "center": [c * k for c in net["p0"][len(mods)]]})
         else:
             mods.append({"kind": kind, "rects": [[c * k for c in r] for r in rects]})
     # every third soft module has its area split over two regions (the total is what spectral uses)
@@ -120,6 +122,8 @@ def random_case(rng: random.Random, emb: str) -> dict:
                 r = rs[0]
                 rs = [[x0, y0, x0 + max(2, (r[2] - r[0]) // 4 * 2), y0 + max(2, (r[3] - r[1]) // 4 * 2)]]
             m = {"kind": kind, "rects": rs}
+            if kind == "fixed" and rng.random() < 0.35:      # a fixed terminal (pad) instead of a fixed block
+                m = {"kind": "fixed", "terminal": 1, "center": [rng.randint(0, wq), rng.randint(0, hq)]}
         mods.append(m)
     n = len(mods)
     nets = []
@@ -139,6 +143,66 @@ def random_case(rng: random.Random, emb: str) -> dict:
             "die": [wq, hq], "mods": mods, "nets": nets}
 
 
+def collinear_case(rng: random.Random, emb: str) -> dict:
+    """Movable blocks wired ONLY to fixed pins (terminals and small fixed blocks) that all lie on one slanted line not
+    through the die centre, the mass-weighted mean of the x pulls exactly at the die centre, one block much bigger
+    than the others.  The x coordinates then converge to a vector of zero weighted mean and the y coordinates collapse
+    onto a linear function of x with an offset: the second projection of orthogonalize (against x) is degenerate while
+    the first one (against the constant vector) is not."""
+    u = MICRO // 10                                    # the die is 10 x 10 units of u micro-units (or 10 x 8 / 8 x 10)
+    wq, hq = rng.choice([(10, 10), (10, 10), (10, 8), (8, 10)])
+    k = rng.choice([3, 3, 4])                          # small blocks
+    ratio = rng.choice([4, 6, 6, 8])                   # big block = ratio x a small one
+    # pulls of the small blocks (relative to the centre, in quarters of a unit), distinct, on one side; the big one balances
+    while True:
+        pulls = sorted(rng.sample(range(4, 15), k))    # 1.0 .. 3.5
+        if sum(pulls) % ratio == 0:
+            break
+    big = -sum(pulls) // ratio                         # quarters; ratio * big + sum(pulls) = 0: mass-balanced
+    side = rng.choice([1, -1])                         # mirror in x
+    slope_n, slope_d = rng.choice([(1, 1), (1, 1), (1, 2), (3, 4), (-1, 1), (-1, 2)])
+    off = rng.choice([5, 6, 7, 8]) * rng.choice([1, -1])          # offset of the line at the centre, quarters (1.25 .. 2)
+    small_area = rng.choice([8, 10, 12]) * (min(wq, hq) / 10) ** 2
+    areas = [ratio * small_area] + [small_area] * k
+    if math.sqrt(areas[0] / math.pi) > min(wq, hq) / 2 - 0.2:
+        return collinear_case(rng, emb)
+    # keep the instances in which the y coordinates really collapse onto the line (some block is pulled beyond its own
+    # span: the iteration contracts) and in which a y vector that is shifted by its mean but not re-normalized would
+    # leave the die -- the situation a careless orthogonalize creates; a correct one returns the normalized vector
+    px = [big / 4] + [v / 4 for v in pulls]
+    py = [slope_n * v / slope_d + off / 4 for v in px]
+    span = [hq / 2 - math.sqrt(a / math.pi) for a in areas]
+    rho = min(sp / abs(v) if v else 9.0 for sp, v in zip(span, py))
+    if not (rho < 0.9 and any(abs(slope_n * v / slope_d) * rho > sp + 0.03 for v, sp in zip(px, span))):
+        return collinear_case(rng, emb)
+    mods = [{"kind": "soft", "area": a * u * u} for a in areas]
+    nets, pins = [], []
+    q4 = u // 4
+
+    def pin(xq):                                       # a pin at x (quarters from the centre) on the line, or None if outside
+        x = wq * u // 2 + side * xq * q4
+        y = hq * u // 2 + (slope_n * xq * q4) // slope_d + off * q4
+        if not (0 <= x <= wq * u and 0 <= y <= hq * u):
+            return None
+        if rng.random() < 0.6:
+            m = {"kind": "fixed", "terminal": 1, "center": [x, y]}
+        else:                                          # a small fixed block centred on the pin
+            e = u // 20
+            if x - e < 0 or y - e < 0:
+                return None
+            m = {"kind": "fixed", "rects": [[x - e, y - e, x + e, y + e]]}
+        pins.append(m)
+        return len(areas) + len(pins)
+    for i, p in enumerate([big] + pulls):
+        d = rng.choice([1, 2, 3, 6, 12])               # the two pins of the block at pull -/+ d quarters
+        a, b = pin(p - d), pin(p + d)
+        if a is None or b is None:
+            return collinear_case(rng, emb)
+        nets += [[1, [i + 1, a]], [1, [i + 1, b]]]
+    return {"src": "rnd", "motif": "collinear_pins", "emb": emb, "seed": rng.randrange(1 << 30), "trials": rng.choice([1, 1, 1, 2]),
+            "die": [wq * u, hq * u], "mods": mods + pins, "nets": nets}
+
+
 # ------------------------------------------------------------------------------------------------ real code
 def build_tree(case: dict, emb: Emb) -> dict:
     """The YAML tree of the netlist (Netlist accepts a tree as well as text)."""
@@ -154,6 +218,9 @@ def build_tree(case: dict, emb: Emb) -> dict:
                 d["area"] = a
             if "center" in m:
                 d["center"] = [emb.coord(m["center"][0]), emb.coord(m["center"][1])]
+        elif m.get("terminal"):
+            d["terminal"], d["fixed"] = True, True
+            d["center"] = [emb.coord(m["center"][0]), emb.coord(m["center"][1])]
         else:
             d[m["kind"]] = True
         if "rects" in m:
@@ -235,7 +302,7 @@ def run_case(case: dict) -> dict:
             vals = [d["area"][k] for k in sorted(d["area"])] if isinstance(d["area"], dict) else [d["area"]]
             tot = sum(d["area"].values()) if isinstance(d["area"], dict) else d["area"]
         else:
-            tot = sum(r[2] * r[3] for r in d["rectangles"])
+            tot = sum(r[2] * r[3] for r in d.get("rectangles", []))      # a terminal has no area
             vals = [tot]
         area0.append([qa(tot)] + [qa(v) for v in vals])
     edges0 = [[int(round(w * 10000)), list(pins)] for w, pins in case["nets"]]
@@ -319,6 +386,12 @@ def run_case(case: dict) -> dict:
                         "where": "spectral_layout", "line": 0, "trials_done": len(trials)}
             pos.append([q(m.center.x), q(m.center.y)])
         else:   # hard modules carry their position in their rectangles (the centre is dropped)
+            if m.num_rectangles == 0:     # a terminal: spectral_layout keeps (and rewrites) its centre
+                if m.center is None:
+                    return {"status": "raised", "exc": f"NoCentre: terminal {m.name} lost its centre", "where": "spectral_layout",
+                            "line": 0, "trials_done": len(trials)}
+                pos.append([q(m.center.x), q(m.center.y)])
+                continue
             c = copy.deepcopy(m).calculate_center_from_rectangles()
             pos.append([q(c.x), q(c.y)])
     area1, rects1, edges1 = snap()
@@ -342,7 +415,7 @@ def decide(ctx: Ctx, cases: list[dict]):
                                        "max_excess_over_span_micro_units": 0.0})
     for c, (status, val) in zip(cases, results):
         st["total"] += 1
-        feat = {"emb": c["emb"], "src": c["src"]}
+        feat = {"emb": c["emb"], "src": c["src"], "motif": c.get("motif", "")}
         if status != "ok":
             st["no_result"] += 1
             ctx.violation("returns", c, {"status": status}, {**feat, "exc": status})
@@ -384,7 +457,7 @@ def decide(ctx: Ctx, cases: list[dict]):
                 detail["final"] = t["final"]["pos"]
             else:
                 detail["a"], detail["b"] = e["a"], e["b"]
-            ctx.violation(clause, c, detail, {"emb": c["emb"], "src": c["src"], "event": e["t"]})
+            ctx.violation(clause, c, detail, {"emb": c["emb"], "src": c["src"], "event": e["t"], "motif": c.get("motif", "")})
         for (l, clause) in v["drift"]:
             ctx.model_drift(f"{clause} at {t['events'][l - 1]['t']}")
     for t in list(traces.values())[:2]:
@@ -422,6 +495,12 @@ def run(ctx: Ctx) -> int:
     nrnd = 90 if quick else 1500
     cases += [random_case(rng, EMB_ORDER[i % len(EMB_ORDER)]) for i in range(nrnd)]
     ctx.extra["cases_random"] = nrnd
+    ncol = 42 if quick else 600
+    # (the loop tolerance of the code is max(size)*n*1e-10, absolute: only on small dies does the iteration run long
+    # enough for the collapse to reach rounding level, so the motif is mostly run on dies of side 1 and 10)
+    col_embs = ["unit", "ten", "unit", "ten", "unit", "tiny"]
+    cases += [collinear_case(rng, col_embs[i % len(col_embs)]) for i in range(ncol)]
+    ctx.extra["cases_collinear_pins_motif"] = ncol
     decide(ctx, cases)
     ctx.extra["embeddings"] = EMB_ORDER
     ctx.assumptions += [
@@ -433,8 +512,10 @@ def run(ctx: Ctx) -> int:
         "and cross-checked coarsely by TLC (d_radius)",
         "of the up to 10000 normalize calls per dimension a sample is judged: the first four, powers of two, the "
         "last two and the call with the largest excess over the span; all trials and the committed placement are judged",
-        "float dimension sampled by 6 scales of the micro-unit (1e-6, 1 as YAML integers, 0.1, 1/3, 1e-3, 1e3)",
-        "inputs: connected netlists, >= 4 movable modules of non-zero area (no terminals), every movable disc fits "
+        "float dimension sampled by 6 scales of the micro-unit (1e-6, 1 as YAML integers, 0.1, 1/3, 1e-3, 1e3); the "
+        "collinear-fixed-pins motif mostly on dies of side 1 and 10 (the loop tolerance of the code is absolute)",
+        "inputs: connected netlists, >= 4 movable modules of non-zero area, fixed modules = fixed blocks and fixed terminals "
+        "(pins; movable terminals are not generated), every movable disc fits "
         "with a margin >= 1e-4 of the die side, trials >= 1",
     ]
     return ctx.finish(
